@@ -28,6 +28,7 @@ Emit == PrintT(<<"T", hist', IF joined' = NoRes THEN 0 ELSE hidx'[joined'], err'
 Cite(k, rv, pg, pl, df, ag, nm, pin, id) ==
   [k |-> k, rv |-> rv, pg |-> pg, pl |-> pl, df |-> df, ag |-> ag, nm |-> nm, pin |-> pin, id |-> id]
 FC(rv, pg, pl, df) == Cite("fc", rv, pg, pl, df, NoName, {}, NoPin, "")
+FCT(rv, pg, txt)   == Cite("fc", rv, pg, {"a"}, {"b"}, NoName, {}, NoPin, txt)     \* a page identified by its text
 FL(id)             == Cite("fl", "", NoGroup, {}, {}, NoName, {}, NoPin, id)
 FJ(id, pg)         == Cite("fj", "", pg, {}, {}, NoName, {}, NoPin, id)
 SC(rv, ag)         == Cite("sc", rv, NoGroup, {}, {}, ag, {}, NoPin, "")
@@ -52,6 +53,7 @@ AlphaNames ==
 AlphaPins ==
      {FC("r1", 10, {"a"}, {"b"}), FC("r2", 300, {"c"}, {"d"}), FC("r1", NoPage, {"a"}, {"b"}),
       FL("l1"), FJ("j1", 20), FJ("j1", NoPage),
+      FCT("r3", NonNumeric, "95,342"), FCT("r3", Big, "1234567890"), FCT("r3", Huge, "huge"),
       SC("r1", NoName), SU("c"), SU("z"), UN}
   \cup {ID(p) : p \in {NoPin, BadPin, 9, 10, 160, 161, 299, 300, 450, 451, 19, 20, 170, 171}}
 
